@@ -141,6 +141,14 @@ def run(res):
         cont = rng.choice([False, True])
         chdir = os.path.join(work, "r%d" % i, "ch")
         os.makedirs(chdir)
+        if rng.random() < 0.5:
+            # directories left by an earlier session / a backfill: the layout must not depend on them
+            for j in range(0, 6):
+                Sj = sc * ((start * dd // n) // sc + j)
+                os.makedirs(os.path.join(chdir, spec(0, n, dd, sc, fc, cdiv(Sj * n, dd))[0][3]), exist_ok=True)
+            res.count("recordings_with_preexisting_subdirs")
+        common.set_current({"fn": "recording", "n": n, "d": dd, "sc": sc, "fc": fc, "start": start, "continuous": cont,
+                            "preexisting_subdirs": os.listdir(chdir)})
         w = digital_rf.DigitalRFWriter(chdir, np.int32, sc, fc, start, n, dd, "uuid", 0, False, False, 1, cont, False)
         pos = 0
         written = {}
